@@ -15,8 +15,8 @@ from .repo import AnalysisError, Func, Repo, dotted, own_walk, text
 
 MUTATORS = {"append", "pop", "add", "remove", "update", "extend", "clear", "sort", "insert",
             "discard", "popitem", "setdefault", "reverse"}
-PURE_BUILTINS = {"len", "int", "bool", "isinstance", "cast", "str"}
-PURE_PREDICATES = {"is_subspace", "intersect"}
+PURE_BUILTINS = {"len", "int", "bool", "isinstance", "cast", "str", "any", "all", "min", "max", "sum", "set", "sorted", "list", "tuple"}
+PURE_PREDICATES = {"is_subspace", "intersect", "has_edge", "has_node"}
 IMMUTABLE_FIELDS = {"space", "parent_node"}
 ALL_HEAP = "*all"
 
@@ -173,6 +173,8 @@ class FuncModel:
                 return self.is_abbreviation(e.args[1], at)
             if n in PURE_PREDICATES or n in ("node_is_minimal", "len"):
                 return all(self.is_pure(a) for a in e.args)
+            if n in ("any", "all") and isinstance(e.func, ast.Name) and len(e.args) == 1:
+                return self.is_pure(e.args[0])   # a quantified condition held in a local
             if n == "get" and isinstance(e.func, ast.Attribute) and len(e.args) == 1 and not e.keywords:
                 return self.is_pure(e.func.value) and self.is_pure(e.args[0])  # dictionary read
             return False
@@ -209,6 +211,8 @@ class FuncModel:
             return self.is_pure(e.test) and self.is_pure(e.body) and self.is_pure(e.orelse)
         if isinstance(e, (ast.Tuple, ast.List, ast.Set)):
             return all(self.is_pure(x) for x in e.elts)
+        if isinstance(e, (ast.GeneratorExp, ast.ListComp, ast.SetComp)):
+            return self.is_pure(e.elt) and all(self.is_pure(g.iter) and all(self.is_pure(c) for c in g.ifs) for g in e.generators)
         if isinstance(e, ast.Call):
             n = self._callee_name(e)
             ok = n in PURE_BUILTINS or n in PURE_PREDICATES or n in (
